@@ -683,6 +683,17 @@ func (ndb *nodeDB) DeleteVersionsFrom(fromVersion int64) error {
 	}
 
 	// NOTICE: we don't touch fast node indexes here, because it'll be rebuilt later because of version mismatch.
+	// The label is dropped, so that the mismatch cannot be missed: if it stayed and this tree does not
+	// maintain the index (skipFastStorageUpgrade), re-committing up to the labelled version would make
+	// the label match again while the fast nodes still describe the deleted versions.
+	if ndb.hasUpgradedToFastStorage() {
+		if err = ndb.batch.Delete(metadataKeyFormat.Key([]byte(storageVersionKey))); err != nil {
+			return err
+		}
+		ndb.mtx.Lock()
+		ndb.storageVersion = defaultStorageVersionValue
+		ndb.mtx.Unlock()
+	}
 
 	ndb.resetLatestVersion(dumpFromVersion - 1)
 
